@@ -10,10 +10,12 @@ import (
 	"fmt"
 	"io"
 	"os"
+	"os/signal"
 	"path/filepath"
 	"reflect"
 	"sync"
 	"sync/atomic"
+	"syscall"
 	"time"
 
 	"github.com/containerd/stargz-snapshotter/cache"
@@ -21,7 +23,8 @@ import (
 )
 
 type Op struct {
-	Op     string `json:"op"` // add write commit abort closew pwrite prename pdone get read closer peek
+	Op     string `json:"op"` // add write commit abort closew pwrite pfail prename pdone get gstart gfd gopen read closer peek closecache
+	G      int    `json:"g,omitempty"`
 	K      int    `json:"k,omitempty"`
 	W      int    `json:"w,omitempty"`
 	R      int    `json:"r,omitempty"`
@@ -39,6 +42,7 @@ type Case struct {
 	Direct bool   `json:"cfgdirect,omitempty"`
 	Sync   bool   `json:"sync,omitempty"`
 	Fadv   bool   `json:"fadv,omitempty"`
+	Block  bool   `json:"block,omitempty"` // a regular file sits where the directory of key 5 ("ef") would be: MkdirAll fails
 	Ops    []Op   `json:"ops"`
 	// stress only
 	SSeed   uint64 `json:"sseed,omitempty"`
@@ -75,6 +79,37 @@ func hook(key string, stage int) {
 	}
 }
 
+// Get gate (cache.VerifGetHook): a Get started by a "gstart" op runs on its own goroutine and stops between its three
+// lookups. Only one goroutine runs at a time, so a hook call made while the main goroutine is inside a plain Get
+// comes from the main goroutine and is let through.
+var (
+	mainInGet atomic.Bool
+	getGateOn atomic.Bool
+	garrivals = make(chan arrival, 64)
+)
+
+func getHook(key string, stage int) {
+	if !getGateOn.Load() || mainInGet.Load() {
+		return
+	}
+	a := arrival{stage: stage, resume: make(chan struct{})}
+	garrivals <- a
+	<-a.resume
+}
+
+type getRet struct {
+	r   cache.Reader
+	err error
+}
+
+type gstate struct {
+	key    int
+	pt     bool
+	stage  int // 1 = before the descriptor lookup, 2 = before open, -1 = finished
+	resume chan struct{}
+	ret    chan getRet
+}
+
 func waitArrival() (arrival, bool) {
 	select {
 	case a := <-arrivals:
@@ -82,6 +117,30 @@ func waitArrival() (arrival, bool) {
 	case <-time.After(15 * time.Second):
 		return arrival{}, false
 	}
+}
+
+// mkTemp creates the cache's parent directory. The quick tier keeps it on tmpfs when there is one (the shared disk of the
+// build machine makes rename/open latencies dominate the run time); the thorough tier alternates with the default
+// temporary directory, so that a disk file system is exercised as well.
+var (
+	tmpCount int
+	onDisk   bool
+)
+
+func mkTemp(prefix string) string {
+	base := ""
+	tmpCount++
+	if st, err := os.Stat("/dev/shm"); err == nil && st.IsDir() && !(onDisk && tmpCount%2 == 0) {
+		base = "/dev/shm"
+	}
+	dir, err := os.MkdirTemp(base, prefix)
+	if err != nil {
+		dir, err = os.MkdirTemp("", prefix)
+		if err != nil {
+			panic(err)
+		}
+	}
+	return dir
 }
 
 // ---- driver ----
@@ -96,6 +155,7 @@ type wstate struct {
 	acc       []byte
 	resume    chan struct{}
 	commitRet chan error
+	mayFail   bool // a persist fault was injected
 }
 
 type rstate struct {
@@ -112,6 +172,8 @@ type driver struct {
 	bc        cache.BlobCache
 	ws        []*wstate
 	rs        []*rstate
+	gs        []*gstate
+	closed    bool
 	committed map[int][][]byte
 	bufIDs    map[*bytes.Buffer]int
 	coqOps    []string
@@ -126,10 +188,7 @@ func newDriver(c Case) *driver {
 		d.bc = cache.NewMemoryCache()
 		return d
 	}
-	dir, err := os.MkdirTemp("", "c11-")
-	if err != nil {
-		panic(err)
-	}
+	dir := mkTemp("c11-")
 	d.dir = dir
 	bc, err := cache.NewDirectoryCache(filepath.Join(dir, "c"), cache.DirectoryCacheConfig{
 		MaxLRUCacheEntry: c.DCap, MaxCacheFds: c.FCap, SyncAdd: c.Sync, Direct: c.Direct, FadvDontNeed: c.Fadv,
@@ -138,7 +197,62 @@ func newDriver(c Case) *driver {
 		panic(err)
 	}
 	d.bc = bc
+	if c.Block {
+		if err := os.WriteFile(filepath.Join(dir, "c", keyName(5)[:2]), []byte("x"), 0o600); err != nil {
+			panic(err)
+		}
+	}
 	return d
+}
+
+func (d *driver) blocked(k int) bool {
+	return d.c.Kind == "dir" && d.c.Block && keyName(k)[:2] == keyName(5)[:2]
+}
+
+// hitReader registers a reader returned by a lookup and evaluates the hit clause of the oracle.
+func (d *driver) hitReader(r cache.Reader, k int, pt bool) string {
+	rs := &rstate{r: r, ra: r, key: k, open: true}
+	if pt {
+		rs.ra = r.GetReaderAt() // what the FUSE passthrough path takes over
+	}
+	d.rs = append(d.rs, rs)
+	v, rerr := readAll(rs.ra)
+	if rerr != nil {
+		d.problem("hit on %s: reading the value failed: %v", keyName(k), rerr)
+	} else if !d.isCommitted(k, v) {
+		d.problem("hit on %s returned %v which no writer committed under that key (committed: %v)", keyName(k), v, d.committed[k])
+	}
+	rs.val = v
+	if _, isFile := r.GetReaderAt().(*os.File); isFile {
+		return "hit.file"
+	}
+	return "hit.buf"
+}
+
+// gstep lets a gated Get proceed to its next gate or to its end; returns "hit.*", "miss" or "pending".
+func (d *driver) gstep(g *gstate, cop string) string {
+	if g.resume != nil {
+		close(g.resume)
+		g.resume = nil
+	}
+	select {
+	case a := <-garrivals:
+		g.resume, g.stage = a.resume, a.stage
+		d.emit(cop, "OMiss")
+		return "pending"
+	case rt := <-g.ret:
+		g.stage = -1
+		if rt.err != nil {
+			d.emit(cop, "OMiss")
+			return "miss"
+		}
+		d.emit(cop, "OHit")
+		return d.hitReader(rt.r, g.key, g.pt)
+	case <-time.After(15 * time.Second):
+		g.stage = -1
+		d.problem("gated Get of %s neither returned nor reached its next lookup", keyName(g.key))
+		return "miss"
+	}
 }
 
 func (d *driver) problem(f string, a ...any) { d.problems = append(d.problems, fmt.Sprintf(f, a...)) }
@@ -203,8 +317,16 @@ func (d *driver) emit(op, out string) {
 // applicable mirrors the protocol conditions under which the model's step is not a no-op.
 func (d *driver) applicable(o Op) bool {
 	switch o.Op {
-	case "add", "get", "peek":
+	case "add", "get", "peek", "gstart":
 		return o.K >= 0 && o.K < nkeys
+	case "gfd":
+		return o.G >= 0 && o.G < len(d.gs) && d.gs[o.G].stage == 1
+	case "gopen":
+		return o.G >= 0 && o.G < len(d.gs) && d.gs[o.G].stage == 2
+	case "closecache":
+		return d.c.Kind == "dir" && !d.closed
+	case "pfail":
+		return o.W >= 0 && o.W < len(d.ws) && d.ws[o.W].stage == 0 && o.N >= 0
 	case "write", "commit", "abort":
 		return o.W >= 0 && o.W < len(d.ws) && d.ws[o.W].status == 0 && !d.ws[o.W].closed
 	case "closew":
@@ -242,8 +364,15 @@ func (d *driver) do(o Op) string {
 		}
 		w, err := d.bc.Add(keyName(o.K), opts...)
 		if err != nil {
+			if d.closed {
+				d.emit(fmt.Sprintf("Add %d %s None", o.K, hx.CoqBool(direct)), "OErr")
+				return "closed"
+			}
 			d.problem("Add(%s) failed: %v", keyName(o.K), err)
 			return "err"
+		}
+		if d.closed {
+			d.problem("Add(%s) succeeded on a closed cache", keyName(o.K))
 		}
 		ws := &wstate{w: w, key: o.K, mem: isDir && !direct, stage: -1}
 		d.ws = append(d.ws, ws)
@@ -279,15 +408,35 @@ func (d *driver) do(o Op) string {
 	case "commit":
 		ws := d.ws[o.W]
 		ws.status = 1
-		// the value counts as committed from the moment Commit is invoked
-		d.committed[ws.key] = append(d.committed[ws.key], append([]byte{}, ws.acc...))
 		if !ws.mem {
-			if err := ws.w.Commit(); err != nil {
-				d.problem("Commit of writer %d failed: %v", o.W, err)
+			// a direct writer's value becomes visible by the rename: committed iff Commit succeeds
+			mustFail := isDir && (d.closed || d.blocked(ws.key))
+			err := ws.w.Commit()
+			if err == nil {
+				d.committed[ws.key] = append(d.committed[ws.key], append([]byte{}, ws.acc...))
+			} else {
+				ws.status = 2
 			}
-			d.emit(fmt.Sprintf("Commit %d", o.W), "ONone")
+			if (err != nil) != mustFail {
+				d.problem("Commit of direct writer %d: err=%v, expected failure=%v", o.W, err, mustFail)
+			}
+			d.emit(fmt.Sprintf("Commit %d %s", o.W, hx.CoqBool(!d.blocked(ws.key))), "ONone")
+			if err != nil {
+				return "fail"
+			}
 			return "ok"
 		}
+		if d.closed {
+			// "cache is already closed": nothing is published, no persist closure runs
+			ws.status = 2
+			if err := ws.w.Commit(); err == nil {
+				d.problem("Commit of writer %d succeeded on a closed cache", o.W)
+			}
+			d.emit(fmt.Sprintf("Commit %d true", o.W), "ONone")
+			return "fail"
+		}
+		// the value counts as committed from the moment Commit is invoked (it is published to the memory LRU first)
+		d.committed[ws.key] = append(d.committed[ws.key], append([]byte{}, ws.acc...))
 		ws.commitRet = make(chan error, 1)
 		gateOn.Store(true)
 		go func() { ws.commitRet <- ws.w.Commit() }()
@@ -317,8 +466,39 @@ func (d *driver) do(o Op) string {
 				gotArr, gotRet = true, true
 			}
 		}
-		d.emit(fmt.Sprintf("Commit %d", o.W), "ONone")
+		d.emit(fmt.Sprintf("Commit %d true", o.W), "ONone")
 		return "ok"
+	case "pfail":
+		// short write of at most o.N bytes into the wip file: RLIMIT_FSIZE makes the write(2) beyond o.N fail (EFBIG)
+		ws := d.ws[o.W]
+		var old syscall.Rlimit
+		syscall.Getrlimit(syscall.RLIMIT_FSIZE, &old)
+		lim := old
+		lim.Cur = uint64(o.N)
+		e1 := syscall.Setrlimit(syscall.RLIMIT_FSIZE, &lim)
+		close(ws.resume)
+		a, ok := waitArrival()
+		e2 := syscall.Setrlimit(syscall.RLIMIT_FSIZE, &old)
+		if e1 != nil || e2 != nil {
+			d.problem("setrlimit failed: %v %v", e1, e2)
+		}
+		if !ok {
+			d.problem("persist of writer %d stuck after pfail", o.W)
+			ws.stage = -1
+			return "err"
+		}
+		ws.resume, ws.stage = a.resume, a.stage
+		switch a.stage {
+		case 1: // the value fitted: an ordinary complete write
+			d.emit(fmt.Sprintf("PWrite %d", o.W), "ONone")
+			return "fitted"
+		case 2:
+			ws.mayFail = true
+			d.emit(fmt.Sprintf("PFail %d %d", o.W, o.N), "ONone")
+			return "failed"
+		}
+		d.problem("persist of writer %d: pfail went to stage %d", o.W, a.stage)
+		return "err"
 	case "pwrite", "prename", "pdone":
 		ws := d.ws[o.W]
 		want := map[string]int{"pwrite": 1, "prename": 2, "pdone": 3}[o.Op]
@@ -338,7 +518,7 @@ func (d *driver) do(o Op) string {
 			if ws.commitRet != nil { // SyncAdd: Commit returns now
 				select {
 				case err := <-ws.commitRet:
-					if err != nil {
+					if err != nil && !ws.mayFail && !d.closed && !d.blocked(ws.key) {
 						d.problem("Commit of writer %d failed: %v", o.W, err)
 					}
 				case <-time.After(15 * time.Second):
@@ -347,12 +527,19 @@ func (d *driver) do(o Op) string {
 				ws.commitRet = nil
 			}
 		}
-		d.emit(map[string]string{"pwrite": "PWrite", "prename": "PRename", "pdone": "PDone"}[o.Op]+fmt.Sprintf(" %d", o.W), "ONone")
+		switch o.Op {
+		case "pwrite":
+			d.emit(fmt.Sprintf("PWrite %d", o.W), "ONone")
+		case "prename":
+			d.emit(fmt.Sprintf("PRename %d %s", o.W, hx.CoqBool(!d.blocked(ws.key))), "ONone")
+		case "pdone":
+			d.emit(fmt.Sprintf("PDone %d", o.W), "ONone")
+		}
 		return "ok"
 	case "abort":
 		ws := d.ws[o.W]
 		ws.status = 2
-		if err := ws.w.Abort(); err != nil {
+		if err := ws.w.Abort(); err != nil && !d.closed {
 			d.problem("Abort of writer %d failed: %v", o.W, err)
 		}
 		d.emit(fmt.Sprintf("Abort %d", o.W), "ONone")
@@ -375,29 +562,49 @@ func (d *driver) do(o Op) string {
 		if o.PT {
 			opts = append(opts, cache.PassThrough())
 		}
+		mainInGet.Store(true)
 		r, err := d.bc.Get(keyName(o.K), opts...)
+		mainInGet.Store(false)
 		cop := fmt.Sprintf("Get %d %s", o.K, hx.CoqBool(direct))
 		if err != nil {
 			d.emit(cop, "OMiss")
 			return "miss"
 		}
-		rs := &rstate{r: r, ra: r, key: o.K, open: true}
-		if o.PT {
-			rs.ra = r.GetReaderAt() // what the FUSE passthrough path takes over
+		if d.closed && isDir {
+			d.problem("Get(%s) hit on a closed cache", keyName(o.K))
 		}
-		d.rs = append(d.rs, rs)
 		d.emit(cop, "OHit")
-		v, rerr := readAll(rs.ra)
-		if rerr != nil {
-			d.problem("hit on %s: reading the value failed: %v", keyName(o.K), rerr)
-		} else if !d.isCommitted(o.K, v) {
-			d.problem("hit on %s returned %v which no writer committed under that key (committed: %v)", keyName(o.K), v, d.committed[o.K])
+		return d.hitReader(r, o.K, o.PT)
+	case "gstart":
+		// a Get whose three lookups are separate schedule steps (memory lookup now)
+		if !isDir || d.c.Direct || d.closed {
+			return d.do(Op{Op: "get", K: o.K, PT: o.PT})
 		}
-		rs.val = v
-		if _, isFile := r.GetReaderAt().(*os.File); isFile {
-			return "hit.file"
+		var opts []cache.Option
+		if o.PT {
+			opts = append(opts, cache.PassThrough())
 		}
-		return "hit.buf"
+		g := &gstate{key: o.K, pt: o.PT, ret: make(chan getRet, 1)}
+		d.gs = append(d.gs, g)
+		getGateOn.Store(true)
+		go func() {
+			r, err := d.bc.Get(keyName(g.key), opts...)
+			g.ret <- getRet{r, err}
+		}()
+		return d.gstep(g, fmt.Sprintf("GetMem %d", o.K))
+	case "gfd":
+		g := d.gs[o.G]
+		return d.gstep(g, fmt.Sprintf("GetFd %d", g.key))
+	case "gopen":
+		g := d.gs[o.G]
+		return d.gstep(g, fmt.Sprintf("GetOpen %d false", g.key))
+	case "closecache":
+		d.closed = true
+		if err := d.bc.Close(); err != nil {
+			d.problem("Close of the cache failed: %v", err)
+		}
+		d.emit("CloseCache", "ONone")
+		return "ok"
 	case "read":
 		rs := d.rs[o.R]
 		p := make([]byte, o.N)
@@ -464,6 +671,15 @@ func (d *driver) do(o Op) string {
 // finish drains pending persist steps, closes everything (as explicit ops, so the model sees them),
 // looks at the stored value of every key, and releases the resources.
 func (d *driver) finish() {
+	for g, gs := range d.gs {
+		for gs.stage > 0 {
+			st := gs.stage
+			d.do(Op{Op: []string{"", "gfd", "gopen"}[st], G: g})
+			if gs.stage == st {
+				break
+			}
+		}
+	}
 	for w, ws := range d.ws {
 		for ws.stage >= 0 {
 			st := ws.stage
@@ -486,6 +702,7 @@ func (d *driver) finish() {
 		}
 	}
 	gateOn.Store(false)
+	getGateOn.Store(false)
 	d.bc.Close()
 	if d.dir != "" {
 		os.RemoveAll(d.dir)
@@ -519,9 +736,14 @@ func gen(r *hx.Rng) Case {
 		c.Sync = r.Bool()
 		c.Direct = r.Chance(1, 8)
 		c.Fadv = r.Chance(1, 4)
+		c.Block = r.Chance(1, 6)
 	}
 	d := newDriver(c)
 	n := r.Range(10, 60)
+	closeAt := -1
+	if c.Kind == "dir" && r.Chance(1, 5) {
+		closeAt = r.Range(n/2, n-1)
+	}
 	hot := r.Intn(nkeys)
 	pickKey := func() int {
 		if r.Chance(1, 3) {
@@ -547,12 +769,29 @@ func gen(r *hx.Rng) Case {
 				openR = append(openR, x)
 			}
 		}
+		var pendG []int
+		for g, gs := range d.gs {
+			if gs.stage > 0 {
+				pendG = append(pendG, g)
+			}
+		}
+		persistOp := func(w int) Op {
+			st := d.ws[w].stage
+			if st == 0 && r.Chance(1, 5) {
+				return Op{Op: "pfail", W: w, N: r.Pick(2, 2, 2, 1, 1)} // short write of 0..4 bytes
+			}
+			return Op{Op: []string{"pwrite", "prename", "pdone"}[st], W: w}
+		}
 		var o Op
 		// with SyncAdd a pending persist mostly proceeds at once (other callers interleave now and then);
 		// in the background mode it is delayed at random
-		if len(pend) > 0 && ((c.Sync && r.Chance(3, 4)) || (!c.Sync && r.Chance(1, 4))) {
-			w := pend[r.Intn(len(pend))]
-			o = Op{Op: []string{"pwrite", "prename", "pdone"}[d.ws[w].stage], W: w}
+		if i == closeAt {
+			o = Op{Op: "closecache"}
+		} else if len(pend) > 0 && ((c.Sync && r.Chance(3, 4)) || (!c.Sync && r.Chance(1, 4))) {
+			o = persistOp(pend[r.Intn(len(pend))])
+		} else if len(pendG) > 0 && r.Chance(1, 3) {
+			g := pendG[r.Intn(len(pendG))]
+			o = Op{Op: []string{"", "gfd", "gopen"}[d.gs[g].stage], G: g}
 		} else {
 			switch r.Pick(14, 14, 12, 3, 5, 22, 12, 10, 3, 5) {
 			case 0:
@@ -588,7 +827,11 @@ func gen(r *hx.Rng) Case {
 				}
 				o = Op{Op: "closew", W: closableW[r.Intn(len(closableW))]}
 			case 5:
-				o = Op{Op: "get", K: pickKey(), Direct: r.Chance(1, 5), PT: r.Chance(1, 3)}
+				if r.Chance(1, 3) {
+					o = Op{Op: "gstart", K: pickKey(), PT: r.Chance(1, 3)}
+				} else {
+					o = Op{Op: "get", K: pickKey(), Direct: r.Chance(1, 5), PT: r.Chance(1, 3)}
+				}
 			case 6:
 				if len(openR) == 0 {
 					o = Op{Op: "get", K: pickKey()}
@@ -610,8 +853,7 @@ func gen(r *hx.Rng) Case {
 					o = Op{Op: "get", K: pickKey()}
 					break
 				}
-				w := pend[r.Intn(len(pend))]
-				o = Op{Op: []string{"pwrite", "prename", "pdone"}[d.ws[w].stage], W: w}
+				o = persistOp(pend[r.Intn(len(pend))])
 			}
 		}
 		d.do(o)
@@ -647,7 +889,11 @@ func genPressure(r *hx.Rng) Case {
 	persist := func(w int, upto int) { // run persist sub-steps of writer w until its stage is upto (or done when upto<0)
 		for w < len(d.ws) && d.ws[w].stage >= 0 && d.ws[w].stage != upto {
 			st := d.ws[w].stage
-			do(Op{Op: []string{"pwrite", "prename", "pdone"}[st], W: w})
+			if st == 0 && r.Chance(1, 8) {
+				do(Op{Op: "pfail", W: w, N: r.Intn(4)})
+			} else {
+				do(Op{Op: []string{"pwrite", "prename", "pdone"}[st], W: w})
+			}
 			if d.ws[w].stage == st {
 				return
 			}
@@ -676,6 +922,13 @@ func genPressure(r *hx.Rng) Case {
 				held = append(held, len(d.rs)-1)
 			}
 		}
+		// a lookup of the victim that is overtaken by the evictions below
+		slow := -1
+		if r.Chance(1, 2) {
+			if do(Op{Op: "gstart", K: (victim + r.Intn(2)) % nkeys}) == "pending" {
+				slow = len(d.gs) - 1
+			}
+		}
 		// evict it: commit other keys (some through the descriptor path as well)
 		for i, n := 0, r.Range(2, 4); i < n; i++ {
 			k := (victim + 1 + r.Intn(nkeys-1)) % nkeys
@@ -688,6 +941,15 @@ func genPressure(r *hx.Rng) Case {
 		}
 		if r.Chance(1, 2) {
 			persist(wv, -1)
+		}
+		for slow >= 0 && d.gs[slow].stage > 0 && r.Chance(3, 4) {
+			st := d.gs[slow].stage
+			if res := do(Op{Op: []string{"", "gfd", "gopen"}[st], G: slow}); res != "pending" && res != "miss" && res != "skip" {
+				held = append(held, len(d.rs)-1)
+			}
+			if d.gs[slow].stage == st {
+				break
+			}
 		}
 		// some holders let go now: their buffers / descriptors may be recycled
 		for _, x := range held {
@@ -732,12 +994,10 @@ func genPressure(r *hx.Rng) Case {
 
 func stress(c Case) []string {
 	gateOn.Store(false)
-	dir, err := os.MkdirTemp("", "c11s-")
-	if err != nil {
-		panic(err)
-	}
+	dir := mkTemp("c11s-")
 	defer os.RemoveAll(dir)
 	var bc cache.BlobCache
+	var err error
 	if c.DCap == 0 {
 		bc = cache.NewMemoryCache()
 	} else {
@@ -854,7 +1114,10 @@ func head(b []byte) []byte {
 
 func main() {
 	ctx := hx.Start()
+	onDisk = ctx.Tier == "thorough"
 	cache.VerifPersistHook = hook
+	cache.VerifGetHook = getHook
+	signal.Ignore(syscall.SIGXFSZ) // RLIMIT_FSIZE is used to inject short writes
 	run := func(c Case) {
 		if c.Kind == "stress" {
 			ps := stress(c)
@@ -869,8 +1132,19 @@ func main() {
 		for _, o := range c.Ops {
 			res := d.do(o)
 			ctx.Count("op." + o.Op)
-			if o.Op == "get" {
+			switch o.Op {
+			case "get":
 				ctx.Count("result.get." + res)
+			case "gstart", "gfd", "gopen", "pfail":
+				ctx.Count("result." + o.Op + "." + res)
+			case "commit":
+				if res == "fail" {
+					ctx.Count("result.commit.fail")
+				}
+			case "add":
+				if res == "closed" {
+					ctx.Count("result.add.closed")
+				}
 			}
 			if o.Op == "add" && o.Direct {
 				ctx.Count("op.add.direct")
@@ -895,6 +1169,9 @@ func main() {
 			}
 			if c.Fadv {
 				ctx.Count("cfg.fadv")
+			}
+			if c.Block {
+				ctx.Count("cfg.block")
 			}
 		}
 		hits, zero, dup := 0, 0, 0
@@ -949,6 +1226,16 @@ func main() {
 			{Op: "write", W: 2, Data: []int{5, 2, 2, 2}}, {Op: "commit", W: 0}, {Op: "commit", W: 1}, {Op: "pwrite", W: 1}, {Op: "get", K: 5}, {Op: "commit", W: 2},
 			{Op: "get", K: 5, Direct: true}, {Op: "prename", W: 1}, {Op: "get", K: 5, Direct: true}, {Op: "pdone", W: 1}, {Op: "add", K: 5}, {Op: "write", W: 3, Data: []int{5, 3}}, {Op: "abort", W: 3},
 			{Op: "peek", K: 5}}},
+		// short write during persist; a Get overtaken by a commit of its key between its lookups; MkdirAll failure; Close with
+		// an open reader, a pending persist and a writer that commits afterwards
+		{Kind: "dir", DCap: 1, FCap: 1, Block: true, Ops: []Op{
+			{Op: "add", K: 0}, {Op: "write", W: 0, Data: []int{0, 0, 6}}, {Op: "commit", W: 0}, {Op: "pfail", W: 0, N: 2}, {Op: "pdone", W: 0}, {Op: "peek", K: 0},
+			{Op: "gstart", K: 1}, {Op: "add", K: 1}, {Op: "write", W: 1, Data: []int{1, 1}}, {Op: "commit", W: 1}, {Op: "pwrite", W: 1}, {Op: "prename", W: 1}, {Op: "pdone", W: 1},
+			{Op: "add", K: 2}, {Op: "commit", W: 2}, {Op: "gfd", G: 0}, {Op: "gopen", G: 0},
+			{Op: "add", K: 5, Direct: true}, {Op: "write", W: 3, Data: []int{5, 3}}, {Op: "commit", W: 3}, {Op: "get", K: 5, Direct: true},
+			{Op: "add", K: 5}, {Op: "write", W: 4, Data: []int{5, 4, 4}}, {Op: "commit", W: 4}, {Op: "pwrite", W: 4}, {Op: "prename", W: 4}, {Op: "get", K: 5},
+			{Op: "add", K: 3}, {Op: "write", W: 5, Data: []int{3, 5}}, {Op: "pwrite", W: 2}, {Op: "closecache"}, {Op: "read", R: 0, Off: 0, N: 4},
+			{Op: "get", K: 1}, {Op: "commit", W: 5}, {Op: "add", K: 4}, {Op: "prename", W: 2}, {Op: "peek", K: 2}, {Op: "get", K: 5}}},
 		{Kind: "mem", Ops: []Op{{Op: "add", K: 0}, {Op: "write", W: 0, Data: []int{0, 0, 1}}, {Op: "get", K: 0}, {Op: "commit", W: 0}, {Op: "get", K: 0},
 			{Op: "add", K: 0}, {Op: "commit", W: 1}, {Op: "get", K: 0}, {Op: "read", R: 0, Off: 0, N: 5}, {Op: "read", R: 1, Off: 0, N: 5}, {Op: "closer", R: 0}}},
 	}
@@ -959,6 +1246,9 @@ func main() {
 	nstress := 6
 	if ctx.Tier == "thorough" {
 		nstress = 48
+	}
+	if nstress > ctx.N/2 {
+		nstress = ctx.N / 2
 	}
 	for i := len(corpus); i < ctx.N-nstress; i++ {
 		q := r.Fork()
